@@ -406,4 +406,4 @@ CHECKS["C20"] = {
 }
 
 NOT_APPLICABLE = {}
-HOOK_COMMITS = []
+HOOK_COMMITS = ["eca2adf"]
